@@ -1,5 +1,5 @@
 (* C05: evaluation of the model on recorded cases (correspondence check). *)
-From CJ Require Import Common.Base C05.Model.
+From CJ Require Import Common.Base C05.Model C05.ModelTcp.
 
 (* error kinds as small numbers: 0 none, 1 eof, 2 reset, 3 pipe, 4 timeout, 5 closed, 6 refused,
    7 aborted, 8 unreach, 9 short, 10+n other n *)
@@ -80,12 +80,52 @@ Definition chk_tcp (c : bool * bool * bool * bool * bool) : bool :=
   finished f && Bool.eqb (match main f with MDone => true | _ => false end) returned &&
   Bool.eqb (closedA f && existsb (fun o => match o with CClose => true | _ => false end) (opsA f)) closed_a &&
   Bool.eqb (closedB f && existsb (fun o => match o with CClose => true | _ => false end) (opsB f)) closed_b &&
-  (if ka_tcp then match opsA f with CSetLinger :: CClose :: _ => true | _ => false end else true) &&
-  (if kb_tcp then match opsB f with CSetLinger :: CClose :: _ => true | _ => false end else true).
+  (if ka_tcp then match opsA f with CSetLinger _ :: CClose :: _ => true | _ => false end else true) &&
+  (if kb_tcp then match opsB f with CSetLinger _ :: CClose :: _ => true | _ => false end else true).
+
+(* ---- fourth wave: the shutdown calls AND their arguments, read back from the sockets themselves.
+   A probe is what the driver read from one of the station's sockets through a duplicate descriptor
+   after Proxy returned: (found, SO_LINGER on, SO_LINGER seconds, shutdown(SHUT_WR) seen,
+   shutdown(SHUT_RD) seen, the station's own descriptor is closed).  The model's prediction is its
+   own shutdown-call log of that connection, executed on the socket model. *)
+Definition sprobe := (bool * bool * N * bool * bool * bool)%type.
+Definition chk_probe (ops : list cop) (p : sprobe) : bool :=
+  let '(found, on, secs, swr, srd, oc) := p in
+  let f := srun sock0 (ops_events ops) in
+  found && Bool.eqb (s_fd_closed f) oc &&
+  (match s_linger f with None => negb on | Some l => on && (N.of_nat l =? secs) end) &&
+  Bool.eqb (s_wr_shut_call f) swr && Bool.eqb (s_rd_shut f) srd.
+
+Definition tcp_final : cfg :=
+  let c0 := init_cfg_k KTcp KTcp 0 empty_ts empty_ts in run c0 (round_robin (measure c0)).
+
+Definition chk_tcp_ops (c : sprobe * sprobe) : bool :=
+  let '(pa, pb) := c in
+  finished tcp_final && chk_probe (opsA tcp_final) pa && chk_probe (opsB tcp_final) pb.
+
+(* the slow-but-complete reader: [sent] bytes went in at one side, the peer at the other side got
+   [got], the tunnel reports [counted], the peer's stream ended with EOF or not, and the peer needed
+   [ms] milliseconds from the sender's end of stream to its own.  The model is executed on the
+   same run in units of 64 KiB: the station writes everything, the relay's shutdown-call log of the
+   destination socket follows, whole seconds pass, the peer takes the rest.  Where the model says
+   "everything arrives, then EOF" the observation must say the same. *)
+Definition chk_tcp_slow (c : bool * N * N * N * bool * N) : bool :=
+  let '(upward, sent, got, counted, eof, ms) := c in
+  let units := N.to_nat (sent / 65536 + 1) in
+  let secs := N.to_nat (ms / 1000) in
+  let ops := if upward then opsB tcp_final else opsA tcp_final in
+  let f := srun sock0 ([Op (SWrite (repeat 0 units))] ++ ops_events ops ++ repeat Tick secs ++ [Deliver units]) in
+  match s_ph f with
+  | Ended PEof => if Nat.eqb (length (s_got f)) units then (got =? sent) && (counted =? sent) && eof else true
+  | _ => true
+  end.
 
 Inductive ccase :=
   | CHalf (c : ts_spec * bool * hobs)
   | CPair (c : ts_spec * ts_spec * list N * pobs)
-  | CTcp (c : bool * bool * bool * bool * bool).
+  | CTcp (c : bool * bool * bool * bool * bool)
+  | CTcpOps (c : sprobe * sprobe)
+  | CTcpSlow (c : bool * N * N * N * bool * N).
 Definition chk (c : ccase) : bool :=
-  match c with CHalf x => chk_half x | CPair x => chk_pair x | CTcp x => chk_tcp x end.
+  match c with CHalf x => chk_half x | CPair x => chk_pair x | CTcp x => chk_tcp x
+             | CTcpOps x => chk_tcp_ops x | CTcpSlow x => chk_tcp_slow x end.
